@@ -74,6 +74,14 @@ def gen_amp_wf(rng: random.Random, d: int, ch, *, eps_boundary=True) -> dict:
         v = 0.0
     else:
         v = round(rng.uniform(max(lo, 0.05 * amax), amax), 4)
+    m = ch.min_avg_amp
+    if eps_boundary and m > 0 and d >= 8 and rng.random() < 0.12 and (ch.max_amp is None or 2.2 * m <= ch.max_amp):
+        # averages just BELOW the minimum that only count as above it if the zero
+        # samples are left out of the mean: must be refused
+        if rng.random() < 0.5:
+            return {"w": "ramp", "d": d, "a": 0.0, "b": round(2 * m * (1 - 0.5 / d), 9)}
+        d1 = max(1, d // 3)
+        return {"w": "composite", "parts": [{"w": "const", "d": d1, "v": 0.0}, {"w": "const", "d": d - d1, "v": round(m * 1.2, 6)}]}
     kind = wpick(
         rng,
         {"const": 5, "ramp": 2, "blackman": 2, "kaiser": 1, "interp": 1, "custom": 1, "composite": 1},
@@ -103,6 +111,9 @@ def gen_amp_wf(rng: random.Random, d: int, ch, *, eps_boundary=True) -> dict:
         vals = [round(v * x, 4) for x in (0.2, 0.9, 0.5 + 0.4 * rng.random(), 0.3)]
         if sum(vals) / 4 < lo * 1.3:
             return {"w": "const", "d": d, "v": v}
+        if rng.random() < 0.35:
+            # scipy's interp1d with an extra keyword (kept when the duration changes)
+            return {"w": "interp", "d": d, "values": vals, "interp1d_kind": pick(rng, ["cubic", "quadratic", "zero", "linear"])}
         return {"w": "interp", "d": d, "values": vals}
     if kind == "custom":
         xs = np.linspace(0, math.pi, d)
